@@ -291,12 +291,15 @@ fn search(ctx: &Ctx, rep: &mut Report, upload: bool) {
 }
 
 fn retention(ctx: &Ctx, rep: &mut Report) {
-    let counts: Vec<u64> = vec![1, 2, 3, 5, 10, 50, 100, 500, 1000, 2000];
+    let mut counts: Vec<u64> = vec![1, 2, 3, 5, 10, 50, 100, 500, 1000, 2000];
+    if ctx.thorough() {
+        counts.extend([5000, 20000]);
+    }
     let n = counts.len() as u64 * 2;
     ctx.family(
         rep,
         "retention-under-load",
-        "expiry one hour; a transfer on key K is started, then 1..2000 requests on other keys (1 ms apart, 20 distinct keys), then the follow-up on K: served from the cache / the upload completes with its buffered bytes",
+        "expiry one hour; a transfer on key K is started, then 1..2000 requests on other keys (1 ms apart, every one on a distinct key; thorough: up to 20000), then the follow-up on K: served from the cache / the upload completes with its buffered bytes",
         n,
         true,
         |i, rep| {
@@ -321,7 +324,7 @@ fn retention(ctx: &Ctx, rep: &mut Report) {
             }
             for j in 0..c {
                 clock::advance(1);
-                let p = format!("o{}", j % 20);
+                let p = format!("o{}", j); // every intervening request on its own key
                 if j % 2 == 0 {
                     srv.exchange((j % 3) as u32 + 1, &request_bytes(0, 1, 100 + j as u16, &[2], &[&p], &[], None, None, &[]), &app);
                 } else {
